@@ -8,6 +8,7 @@ let () =
   | _ :: "den" :: _ -> Runmain.run ~spec:true ()
   | _ :: "scope" :: _ -> Runmain.run ~scope:true ()
   | _ :: "cli" :: _ -> Climain.run ()
+  | _ :: "syn" :: _ -> Synmain.run ()
   | _ :: "lex" :: _ -> Lexmain.run ()
   | _ :: "simp" :: _ -> Runmain.run ~simp:true ()
   | _ -> prerr_endline "usage: zwmodel int [--spec] | cov"; exit 2
